@@ -207,8 +207,10 @@ Definition item_place (key : string) (v : item) : place :=
   let k := key_kind key in let h := key_hash key in
   (k, take2 h, print_name (shape k (legacy v) h (size v) (random v))).
 
-(* sort.Sort(result) by access time.  sort.Sort is not stable; the model sorts stably and the
-   statements about order assume (the driver generates) pairwise distinct access times. *)
+(* sort.Sort(result) with Less = ts.Before, ts = atime.Get(info): by ACCESS time only (the
+   modification time plays no role; Bridge_Names.scanDir_sort_key_pinned pins the statements).
+   sort.Sort is not stable; the model sorts stably, the strict statements about order assume
+   pairwise distinct access times, and the correspondence check compares modulo ties. *)
 Fixpoint insert_by (x : sfile) (l : list sfile) : list sfile :=
   match l with
   | [] => [x]
@@ -334,11 +336,33 @@ Fixpoint count_str (x : string) (l : list string) : nat :=
 Definition same_strings (a b : list string) : bool :=
   Nat.eqb (List.length a) (List.length b) && forallb (fun x => Nat.eqb (count_str x a) (count_str x b)) a.
 
+(* directory creation + migration + scan: the files scanDir reports *)
+Definition scan_all (t : tree) : result (list sfile) :=
+  rbind (mkdirs t) (fun t1 => rbind (migrate t1) scan_tree).
+
+(* The recency list is compared up to the order of entries with EQUAL access time: sort.Sort is
+   not stable and the order in which the scanning goroutines deliver their results is not
+   deterministic, so such entries may be indexed in any order.  With pairwise distinct access
+   times this is equality of the lists. *)
+Fixpoint entry_atime (files : list sfile) (en : entry) : Z :=
+  match files with
+  | [] => 0
+  | x :: r => if entry_eqb (sf_entry x) en then sf_atime x else entry_atime r en
+  end.
+Fixpoint count_entry (en : entry) (l : list entry) : nat :=
+  match l with [] => O | y :: r => (if entry_eqb en y then 1 else 0) + count_entry en r end.
+Definition same_entries (a b : list entry) : bool :=
+  Nat.eqb (List.length a) (List.length b) && forallb (fun x => Nat.eqb (count_entry x a) (count_entry x b)) a.
+Definition order_agrees (files : list sfile) (model observed : list entry) : bool :=
+  same_entries model observed &&
+  list_eqb Z.eqb (map (entry_atime files) model) (map (entry_atime files) observed).
+
 Definition case_ok (c : Z * Z * tree * observed) : bool :=
   let '(mx, hd, t, o) := c in
   match startup mx hd t, o with
   | Ok (s, present), OOk order c u files =>
-      list_eqb entry_eqb (map ent (LRU.order s)) order && (cur s =? c) && (unc s =? u)
+      order_agrees (match scan_all t with Ok fs => fs | _ => [] end) (map ent (LRU.order s)) order
+      && (cur s =? c) && (unc s =? u)
       && same_strings (map place_str present) files
   | Err _, OErr => true
   | _, _ => false
